@@ -298,14 +298,14 @@ LEVEL_TEXT_ADDENDA = {
     "C05": " Also: nothing beyond the documented groups is asserted by initialize() (R-STREAM-EXACT: task / resource / constraint / "
            "indicator / buffer drains, end <= horizon, work amount, non-overlap, buffer encoding, weighted objective); nothing an "
            "earlier call asserted is left on the solver's stack (R-PUSH-POP, R-SCOPED-ASSERT); every verdict returned by check_sat "
-           "is the result of a check() made in the same call (R-CHECK-FRESH). The truth tables of the logical combinators (R-FOL-TABLE): a wrong table also excludes valid schedules. An optional constraint is asserted as Implies(applied, body), never more (R-APPLIED).",
+           "is the result of a check() made in the same call (R-CHECK-FRESH). The truth tables of the logical combinators (R-FOL-TABLE): a wrong table also excludes valid schedules. An optional constraint is asserted as Implies(applied, body), never more (R-APPLIED). Indicator, objective and resource constructors assert definitions only - the one equation of the indicator variable or the whole assertion list of a defining helper (R-OWN-EXACT); indicator constraints, optional-task rules and buffer accesses are asserted as documented and no tighter (R-IND-CONSTRAINT, R-OPT-RULES, R-BUF-REGISTER); every group R-STREAM-EXACT classifies is decided by its rule in this check (R-DRAIN, R-HORIZON, R-WORK-AMOUNT, R-PAIRWISE, R-BUF-ENCODING, R-WEIGHTED).",
     "C06": " Also: a test of a time against a constant is a scheduled-ness test and must have the threshold `t >= 0` / `t <= -1`; "
            "the work-amount assertion is under the scheduled guard (R-WORK-AMOUNT).",
     "C07": " Also: with z3.Optimize every objective is handed to the handle in its own direction, the equivalent weighted one in "
            "weight mode and each declared one otherwise (R-OBJ-HANDED); the makespan objective is the horizon variable, which bounds "
            "every task end (R-HORIZON). The objective variable of every built-in objective is defined by the schedule as an equality, not merely bounded (R-IND-DEF, R-MINMAX); the bound the incremental loop takes as a proof of optimality is written only by an indicator's own constructor and Objective.__init__ (R-BOUND-PROVENANCE). With a user horizon exactly `_horizon <= horizon` is asserted (R-HORIZON, exact): the variable the makespan objective minimises stays free below the bound. The stream of build_equivalent_weighted_objective is the two definitions only (R-WEIGHTED).",
     "C08": " Also: the horizon the utilisation divides by is the horizon delivered with the solution (R-HORIZON-REPORT), and the "
-           "horizon variable bounds every task end (R-HORIZON: makespan).",
+           "horizon variable bounds every task end (R-HORIZON: makespan). An indicator's constructor asserts its definition and nothing else (R-OWN-EXACT): the value reported is a measurement, not a constraint.",
     "C10": " Also: a constraint asserts into its own assertion list only (R-OWN-ASSERTIONS); the force-N cardinalities are decided "
            "semantically over (count, n, size).",
     "C11": " Also: the stored busy pair is tied to the task span with delay-in / early-out (R-BUSY-BIND), every task end is "
@@ -313,7 +313,7 @@ LEVEL_TEXT_ADDENDA = {
            "negative point (R-SET-ASSERTIONS). The part of a unit worker's name before the marker is the cumulative worker's own name, unchanged (R-MARKER). Every task class asserts start >= 0 on every parameter combination (R-TASK-OBLIG): the reporters' `busy >= 0` test means 'assigned' only then.",
     "C12": " Also: answering methods assert only inside pushed scopes and pop them all (R-SCOPED-ASSERT, R-PUSH-POP), an "
            "unscheduled task has one representation (R-SET-ASSERTIONS), verdicts are fresh (R-CHECK-FRESH), and nothing beyond the "
-           "documented groups is asserted at initialisation (R-STREAM-EXACT). Every task's own obligations are asserted on every parameter combination (R-TASK-OBLIG): the enumeration walks exactly the valid timings.",
+           "documented groups is asserted at initialisation (R-STREAM-EXACT). Every task's own obligations are asserted on every parameter combination (R-TASK-OBLIG): the enumeration walks exactly the valid timings. The rules R-STREAM-EXACT hands the groups of initialize() to are run in this check as well (R-DRAIN, R-HORIZON, R-WORK-AMOUNT, R-PAIRWISE, R-BUF-ENCODING, R-WEIGHTED).",
     "C13": " Also: R-SCOPED-ASSERT, the blocking clause (R-BLOCK-CLAUSE), a fresh solver handle on every initialize() "
            "(R-OPT-WIRING) and fresh verdicts (R-CHECK-FRESH). Solver methods do not modify the problem's registries in place (R-SOLVER-READONLY: pop / clear / update / ...).",
     "C14": " Also: no accumulator is read inside the loop that fills it (R-ORDER-PREFIX); no process-wide state: module-level "
@@ -329,7 +329,7 @@ LEVEL_TEXT_ADDENDA = {
            "map` and a 'not already listed' test may filter (R-CORE-COMPLETE); a constraint asserts into its own list only "
            "(R-OWN-ASSERTIONS).",
     "C01": " Also: the constraint system is built lazily by the first answering call, never by the solver's constructor (R-INIT-ONCE), and a task declared under an existing name is rejected, not substituted (R-DUP-NAME).",
-    "C02": " Also: the assignment a resource reports is the model value of the stored busy pair, listed exactly when the task lists the resource (R-VIEW-SYMMETRY); R-INIT-ONCE and R-DUP-NAME for the three resource registries as in C01. Each unit worker of a cumulative worker carries the element at its position of _distribute_p_over_n(productivity | cost, size), unchanged; that helper returns `size` elements (length lemma decided on its body).",
+    "C02": " Also: the assignment a resource reports is the model value of the stored busy pair, listed exactly when the task lists the resource (R-VIEW-SYMMETRY); R-INIT-ONCE and R-DUP-NAME for the three resource registries as in C01. Each unit worker of a cumulative worker carries the element at its position of _distribute_p_over_n(productivity | cost, size), unchanged; that helper returns `size` elements (length lemma decided on its body). Worker, cumulative worker and selection constructors assert nothing of their own (R-OWN-EXACT).",
     "C03": " Also: R-INIT-ONCE and R-DUP-NAME (constraint registry) as in C01: what is declared before solve() is what is asserted, and no declared constraint is silently replaced under its name.",
     "C04": " Also: R-INIT-ONCE and R-DUP-NAME (constraint registry) as in C01/C03.",
     "C09": " Also: util.clean_buffer_levels keeps level k+1 exactly when it keeps change time k, by one selection that reads the times only (R-CLEAN-PAIRED); the bubble sorter makes at least len - 1 full sweeps. The sorter is also decided when written inline (nested loops over a working copy), and sort_no_duplicates whatever way its loops are written.",
